@@ -269,8 +269,13 @@ SolverOK(s, ret) ==
                                            RLe(Mu(p, ret[Len(ret)]), RAdd(Mu(p, rest[1]), RMul(Slack, MuMax(p))))
             [] Solver(s) = "eigs" ->
                  /\ Len(ret) = kk
-                 /\ rest = <<>> \/ \A a \in Range(ret) :       \* sp ascending: rest's largest mu is its last
-                        RLe(Mu(p, rest[Len(rest)]), RMul(OnePlusSlack, Mu(p, a)))
+                 \* largest nu = mu/(1+mu) first, decided at the solver's precision in nu: absolute slack relative to
+                 \* the largest nu (a cluster of tiny mu - a tiny mass block - is one tie).  sp ascending: rest's
+                 \* largest mu is its last.
+                 /\ rest = <<>> \/
+                      LET nu(x) == RDiv(x, RAdd(ROne, x))
+                          eps == RMul(Slack, nu(MuMax(p)))
+                      IN \A a \in Range(ret) : RLe(nu(Mu(p, rest[Len(rest)])), RAdd(nu(Mu(p, a)), eps))
             [] OTHER -> Len(ret) = m
 
 (* canonical returns used by the model checker (exact arithmetic, spectra without ties) *)
